@@ -71,6 +71,30 @@ def _arg_is_reduced(ck, fi, cfg, node, arg) -> tuple[bool, str]:
     return True, f"every definition of `{arg.id}` reaching the call is reduced modulo self._mod"
 
 
+def _reduced_by_abstract_run(ck, rule, fi):
+    """Layout-independent form of R20.1 for a one-parameter setter: with a symbolic value V and a
+    symbolic modulo M (or None) the single set_output() call receives V % M (or V), and the same
+    term is returned."""
+    from sa.minieval import MiniEval, Sym, Term
+    a = fi.node.args
+    params = [x.arg for x in a.posonlyargs + a.args][1:]
+    if len(params) != 1 or a.kwonlyargs:
+        return False, ''
+    try:
+        for mod in (None, Sym('M')):
+            outs = []
+            env = {params[0]: Sym('V'), 'self._mod': mod, 'self.set_output': lambda v, outs=outs: outs.append(v)}
+            res = MiniEval(rule, env).run(fi.node.body)
+            ck.abstract_cases += 1
+            want = Sym('V') if mod is None else Term(('%', Sym('V'), Sym('M')))
+            if res != ('return', want) or outs != [want]:
+                return False, ''
+    except Exception:       # outside the fragment: this formulation abstains
+        return False, ''
+    return True, (f"abstract run with a symbolic value V and modulo M: set_output receives V when no "
+                  f"modulo is set and V % M otherwise, and the same value is returned")
+
+
 def run(ck):
     ck.explanation = (
         "Counter (edzed/blocklib/sblocks1.py): every value that can become the output passes "
@@ -116,6 +140,10 @@ def run(ck):
                 ck.need(R1, len(c.args) == 1 and not c.keywords,
                         f"unrecognised set_output call shape in {fi.fid}: {norm(c)}")
                 ok, why = _arg_is_reduced(ck, fi, cfg, n, c.args[0])
+                if not ok:
+                    ok2, why2 = _reduced_by_abstract_run(ck, R1, fi)
+                    if ok2:
+                        ok, why = True, why2
                 ck.ob(R1, f"{fi.fid} :: {norm1(n.ast)}", ok, why, fi, n.ast)
                 if ok:
                     reducing[name] = fi
